@@ -878,3 +878,42 @@ def c20(ctx):
                      "instrumentation as the trace recorder), not from TLC", "no scheduler gates are used: channel hand-offs "
                      "would add happens-before edges and hide races"],
         exhaustive=False)
+
+
+# --------------------------------------------------------------------------- immutability
+def im_cfg(maxops, maxnodes):
+    return """SPECIFICATION Spec
+CONSTANTS
+  Producers <- GenProducers
+  Values0 <- GenValues
+  OpNames <- GenOps
+  MaxOps = %d
+  MaxNodes = %d
+INVARIANTS Emit
+PROPERTIES FinishedNeverChanges
+CHECK_DEADLOCK FALSE
+""" % (maxops, maxnodes)
+
+
+@prop("C11")
+def c11(ctx):
+    quick = ctx.tier == "quick"
+    f = os.path.join(ctx.scratch, "im.ndjson")
+    ctx.tlc("ImmutableGen", im_cfg(3, 3) if quick else im_cfg(4, 3), capture=f, workers=8, timeout=3000)
+    args = ["immutable", "-in", f]
+    ctx.absorb(ctx.vh_run(args, timeout=3000), args, label="immutable")
+    return ctx.finish(
+        "model_checking",
+        rule="histories = every sequence of 3 (thorough: 4) operations from {read, partial iteration / partial large-bytes "
+             "read, dag-cbor encode, dag-json encode, copy into a basicnode / bindnode builder that is then extended, "
+             "AssignNode into a container that is then extended, AssignNode at top level then Reset and reuse of that "
+             "builder, Reset and reuse of the PRODUCING builder, matching walk, subset-matching walk (new sliced nodes), "
+             "focused transform (new node), store + load (new node)} applied to any node alive, starting from a node made by "
+             "5 producers (basicnode Any / kind-specific builders, bindnode, dag-cbor decoder, dag-json decoder) x 3 values; "
+             "after EVERY operation EVERY finished node is read twice in full (all read forms, byte content through AsBytes "
+             "and a fresh AsLargeBytes reader) and compared with the value it had when it was returned; non-trivial = every "
+             "history; distinct = distinct (producer, value, operation sequence)",
+        assumptions=["callers that write into byte slices handed back, and use of assemblers after their finish (contract "
+                     "misuse), are outside the property", "bindnode builders do not implement Reset (documented TODO): "
+                     "those steps are skipped"],
+        exhaustive=True)
